@@ -936,6 +936,15 @@ pub mod verif {
             self.state.verif_snapshot(namespace, peer)
         }
 
+        /// Forget all per-peer coordination state of a document that is in the sync set
+        /// (what `leave` followed by `start_sync` does to it, without touching gossip or the
+        /// store actor).
+        pub fn verif_reset_coordination(&mut self, namespace: &NamespaceId) {
+            if self.state.remove(namespace) {
+                self.state.insert(*namespace);
+            }
+        }
+
         /// The node id of this actor.
         pub fn verif_me(&self) -> PublicKey {
             self.endpoint.id()
